@@ -175,6 +175,18 @@ def run(ctx, drv):
                                    ("normal_boundary_weights, divisions_outer=3, divisions_inner=1", normal_boundary_weights, {"divisions_outer": 3, "divisions_inner": 1})):
                 optcfgs.append((f"MOEAD(update_utility={uu}, {wname}) on {nobjs} objectives",
                                 lambda p, wg=wg, wkw=wkw, uu=uu: A.MOEAD(p, neighborhood_size=2, weight_generator=wg, update_utility=uu, **wkw), nobjs))
+                if nobjs == 2 and uu is not None:
+                    # the same, started from a spread of mutually non-dominated solutions: no member is best in every objective, so
+                    # no stored fitness is exactly 0 and the utility update (which divides by it) does not abort the run
+                    def spread(p):
+                        out_ = []
+                        for i_ in range(20):
+                            s_ = C_.Solution(p)
+                            s_.variables[:] = [(i_ + 0.5) / 20.0, 0.0, 0.0]
+                            out_.append(s_)
+                        return O_.InjectedPopulation(out_)
+                    optcfgs.append((f"MOEAD(update_utility={uu}, {wname}, generator=InjectedPopulation(non-dominated spread)) on {nobjs} objectives",
+                                    lambda p, wg=wg, wkw=wkw, uu=uu, spread=spread: A.MOEAD(p, neighborhood_size=2, weight_generator=wg, update_utility=uu, generator=spread(p), **wkw), nobjs))
         optcfgs.append((f"NSGAIII(divisions_outer=3, divisions_inner=1) on {nobjs} objectives", lambda p: A.NSGAIII(p, divisions_outer=3, divisions_inner=1), nobjs))
         optcfgs.append((f"NSGAII(archive=EpsilonBoxArchive, selector=TournamentSelector(3)) on {nobjs} objectives",
                         lambda p: A.NSGAII(p, population_size=6, archive=C_.EpsilonBoxArchive([0.1]), selector=O_.TournamentSelector(3)), nobjs))
